@@ -114,6 +114,109 @@ def boost_composeinfo(spec, rng):
     return spec
 
 
+KEY_SHAPES = ["Server", "server", "SERVER", "S\u00e9rver", "\U0001F4BF", "ppc", "ppc64", "ppc64le", "None", "null", "0", "1.0", "False",
+              "a b", " lead", "trail ", "tab\tkey", "\u00a0", "a.b", "a:b", 'q"uote', "back\\slash", "a,b", "a/b", "a=b", "#h", "%p", "[b]", ";s", "a--b", "x" * 300, "\u0663", "\uff17", "Z", "a", "_"]
+
+
+def boost_composeinfo2(spec, rng, cls):
+    """further container classes: >= 3 top-level variants (ids sorting differently by case / digits), >= 3 children at depth >= 2,
+    >= 3 path categories each with >= 3 arches (prefix family ppc/ppc64/ppc64le, non-ASCII arch names), long path values"""
+    arches = ["x86_64", "ppc64le", "ppc64", "ppc", "aarch64", "s390x", "\u00e9arch", "None", "0"]
+
+    def var(parent, vid, n_arch=4):
+        uid = vid if parent is None else parent["uid"] + "-" + vid
+        pool = sorted(parent["arches"]) if parent is not None else arches
+        ar = rng.sample(pool, min(len(pool), n_arch))
+        ar.sort(reverse=True)
+        return {"key": vid, "id": vid, "uid": uid, "name": "n " + vid, "type": "variant", "arches": ar, "paths": {}, "release": None, "variants": []}
+    if cls == 0:
+        have = set(v["id"] for v in spec["variants"])
+        for vid in ["zz", "b", "Z9", "B", "10", "9", "a"][:rng.randint(3, 6)]:
+            if vid not in have and not any(vid.lower() == h.lower() and False for h in have):
+                spec["variants"].append(var(None, vid))
+    elif cls == 1:
+        top = var(None, "Deep%d" % rng.randrange(100), 6)
+        mid = var(top, "Mid")
+        mid["arches"] = list(top["arches"])
+        for cid in ["z", "M", "a1", "A1", "00"][:rng.randint(3, 5)]:
+            k = var(mid, cid, 3)
+            mid["variants"].append(k)
+            if cid == "z":
+                for gid in ["y", "X", "1"]:
+                    k["variants"].append(var(k, gid, 2))
+        top["variants"].append(mid)
+        spec["variants"].append(top)
+    elif cls == 2:
+        v = var(None, "Paths%d" % rng.randrange(100), 6)
+        cats = list(FCI.CATEGORIES)
+        rng.shuffle(cats)
+        for cat in sorted(cats[:rng.randint(3, 14)], reverse=True):
+            v["paths"][cat] = dict((a, ("%s/%s/%s" % (v["uid"], a, cat)) + ("/" + "p" * 300 if rng.random() < 0.1 else "")) for a in v["arches"])
+        spec["variants"].append(v)
+    return spec
+
+
+def boost_images2(spec, rng, cls):
+    """>= 3 variants / >= 3 arches per variant with key shapes (descending), >= 3 checksum types incl. keys differing only in case,
+    additional_variants with >= 3 entries in non-sorted order and a repeated entry"""
+    t = FIM.tables()
+    k = rng.randrange(len(t["tf"]))
+
+    def add(v, a, **over):
+        img = FIM.gen_image(rng, k + len(spec["pool"]), v if all(ord(c) < 128 for c in v) and len(v) < 50 else "V", a, t)
+        img["disc_number"] = 3000 + len(spec["pool"])
+        img["disc_count"] = 9000
+        img.update(over)
+        spec["pool"].append(img)
+        spec["adds"].append([v, a, len(spec["pool"]) - 1])
+    if cls == 0:
+        for v in sorted(["server", "Server", "\uff17", "\U0001F4BF"] + rng.sample(KEY_SHAPES[2:], 2), reverse=True):
+            add(v, "x86_64")
+    elif cls == 1:
+        for a in sorted(["ppc", "ppc64", "ppc64le", "aarch64", "s390x", "i386"][:rng.randint(3, 6)], reverse=True):
+            add("Everything", a)
+    elif cls == 2:
+        cks = {}
+        for ty in ["sha256", "SHA256", "md5", "Sha256", "sha1", "\u00e9"][:rng.randint(3, 6)]:
+            cks[ty] = "%064x" % rng.getrandbits(256)
+        add("Client", "x86_64", checksums=cks)
+        add("Client", "x86_64", checksums=dict(reversed(list(cks.items()))))
+    elif cls == 3:
+        add("Workstation", "x86_64", unified=True, additional_variants=["Server", "Client", "A", "server", "Client", "10", "9"][:rng.randint(3, 7)])
+    return spec
+
+
+def boost_treeinfo2(spec, rng, cls):
+    """>= 3 top-level variants, >= 3 children at depth 2, >= 3 checksums, >= 3 image platforms each with >= 3 images, all in
+    descending order; names that differ only in case, prefix families, non-ASCII"""
+    def var(uid_parent, vid, typ="variant"):
+        uid = vid if uid_parent is None else uid_parent + "-" + vid
+        return {"key": vid, "id": vid, "uid": uid, "name": "N " + vid, "type": typ,
+                "paths": [[f, "p/%s/%s" % (vid, f)] for f in rng.sample(FTI.PATH_FIELDS, rng.randint(0, 7))], "variants": []}
+    have = set(v["key"] for v in spec["variants"])
+    if cls == 0:
+        for vid in ["zz", "b", "Z9", "B", "10", "9"][:rng.randint(3, 6)]:
+            if vid not in have:
+                spec["variants"].append(var(None, vid))
+    elif cls == 1:
+        top = var(None, "Deep%d" % rng.randrange(100))
+        mid = var(top["uid"], "Mid", "addon")
+        for cid in ["z", "M", "a1", "A1"][:rng.randint(3, 4)]:
+            mid["variants"].append(var(mid["uid"], cid, rng.choice(["addon", "variant", "optional"])))
+        top["variants"].append(mid)
+        spec["variants"].append(top)
+    elif cls == 2:
+        paths = ["z/last", "images/boot.iso", "Images/boot.iso", "a b/c", "10", "9", "\u00e9/x", "images/pxeboot/vmlinuz"]
+        spec["checksums"] = [[p, rng.choice(["sha256", "md5", "SHA256"]), "%064x" % rng.getrandbits(256)] for p in paths[:rng.randint(3, 8)]]
+    elif cls == 3:
+        plats = ["xen", "XEN", "ppc", "ppc64", "ppc64le", "efi", "\u00e9fi"][:rng.randint(3, 7)]
+        plats.sort(reverse=True)
+        names = ["kernel", "Kernel", "initrd", "boot.iso", "zz", "10", "9", "\u00e9"]
+        spec["images"] = [[p, [[n, "images/%s/%s" % (p, n)] for n in sorted(names[:rng.randint(3, 8)], reverse=True)]] for p in plats]
+        spec["tree"]["platforms"] = sorted(set(spec["tree"]["platforms"]) | set(plats), reverse=True)
+    return spec
+
+
 def boost_images(spec, rng):
     """a cell with >= 3 images whose path order differs from insertion order; equal base names in different directories"""
     t = FIM.tables()
@@ -164,20 +267,64 @@ def boost_treeinfo(spec, rng):
     return spec
 
 
+def _u3(keys):
+    keys = list(dict.fromkeys(keys))
+    return len(keys) >= 3 and keys != sorted(keys)
+
+
+def _shapes(prefix, keys, f):
+    keys = list(keys)
+    low = [k.lower() for k in keys]
+    if len(set(low)) < len(set(keys)):
+        f.append(prefix + ":keys differing only in case")
+    if any(ord(c) > 127 for k in keys for c in k):
+        f.append(prefix + ":non-ASCII key")
+    if any(len(k) >= 300 for k in keys):
+        f.append(prefix + ":key >= 300 chars")
+    if any(k in ("None", "null", "0", "1.0", "False") for k in keys):
+        f.append(prefix + ":key that looks like another type")
+    if any(a != b and b.startswith(a) for a in keys for b in keys):
+        f.append(prefix + ":one key a prefix of another")
+    if any(k != k.strip() or "\t" in k or "\u00a0" in k for k in keys):
+        f.append(prefix + ":key with leading/trailing blank, tab or NBSP")
+    if any(c in k for k in keys for c in '"\\,/=#%[];'):
+        f.append(prefix + ":key containing a delimiter / quote / backslash")
+    if any(ord(c) > 0xFFFF for k in keys for c in k) and any(0xD7FF < ord(c) <= 0xFFFF for k in keys for c in k):
+        f.append(prefix + ":astral and high-BMP key in one dict (code-point vs UTF-16 order)")
+
+
 def features(fmt, spec):
+    """which unordered containers of the case have >= 3 entries whose insertion order differs from the sorted order (the coverage
+    matrix of docs/audit_C08.md), plus key shapes"""
     f = []
     if fmt == "composeinfo":
-        for v, _ in FCI.walk(spec):
+        if _u3(v["key"] for v in spec["variants"]):
+            f.append("ci:top-level variant dict >=3 unsorted")
+        _shapes("ci:variant ids", [v["id"] for v, _ in FCI.walk(spec)], f)
+        for v, parent in FCI.walk(spec):
             ids = [k["id"] for k in v["variants"]]
-            if len(ids) >= 3 and ids != sorted(ids):
-                f.append("ci:>=3 kids, non-ascending")
-            if len(v["arches"]) >= 3 and v["arches"] != sorted(v["arches"]):
+            if _u3(ids):
+                f.append("ci:>=3 kids, non-ascending" if parent is None else "ci:child dict at depth >=2, >=3 unsorted")
+            if _u3(v["arches"]):
                 f.append("ci:>=3 arches, unsorted")
+            _shapes("ci:arches", v["arches"], f)
+            if _u3(v["paths"]):
+                f.append("ci:path categories >=3 unsorted")
+            if any(_u3(d) for d in v["paths"].values()):
+                f.append("ci:arch table of a path category >=3 unsorted")
+            if any(len(p) >= 300 for d in v["paths"].values() for p in d.values()):
+                f.append("ci:path value >= 300 chars")
         if len(spec["variants"]) >= 2:
             f.append("ci:>=2 top-level")
     elif fmt == "images":
         cells = FIM.cells_of_adds(spec["pool"], spec["adds"])
+        if _u3(cells):
+            f.append("im:variant dict >=3 unsorted")
+        _shapes("im:variant keys", cells, f)
         for v, d in cells.items():
+            if _u3(d):
+                f.append("im:arch dict >=3 unsorted")
+            _shapes("im:arch keys", d, f)
             for a, c in d.items():
                 ps = [spec["pool"][i]["path"] for i in c]
                 if len(ps) >= 3 and ps != sorted(ps):
@@ -185,24 +332,53 @@ def features(fmt, spec):
                 bases = [p.rsplit("/", 1)[-1] for p in ps]
                 if len(set(bases)) < len(bases):
                     f.append("im:same base name in one cell")
-        if any(len(i.get("checksums", {})) >= 2 for i in spec["pool"]):
-            f.append("im:>=2 checksum types")
+        for i in spec["pool"]:
+            ck = i.get("checksums") or {}
+            if len(ck) >= 2:
+                f.append("im:>=2 checksum types")
+            if _u3(ck):
+                f.append("im:checksum dict >=3 unsorted")
+            _shapes("im:checksum keys", ck, f)
+            av = i.get("additional_variants") or []
+            if len(av) >= 3 and av != sorted(av):
+                f.append("im:additional_variants >=3, not sorted (caller order)")
+            if len(set(av)) < len(av):
+                f.append("im:additional_variants with a repeated entry")
+        idx = [x[2] for x in spec["adds"]]
+        if len(set(idx)) < len(idx):
+            f.append("im:one object filed in several cells")
     elif fmt == "treeinfo":
-        for v, _ in FTI.all_variants(spec["variants"]):
+        if _u3(v["key"] for v in spec["variants"]):
+            f.append("ti:top-level variant dict >=3 unsorted")
+        for v, parent in FTI.all_variants(spec["variants"]):
             uids = [k["uid"] for k in v["variants"]]
-            if len(uids) >= 3 and uids != sorted(uids):
-                f.append("ti:>=3 addons, non-ascending")
+            if _u3(uids):
+                f.append("ti:>=3 addons, non-ascending" if parent is None else "ti:child dict at depth >=2, >=3 unsorted")
+            if _u3(p[0] for p in v["paths"]):
+                f.append("ti:variant path table >=3 unsorted")
         pl = spec["tree"]["platforms"]
-        if len(pl) >= 3 and pl != sorted(pl):
+        if _u3(pl):
             f.append("ti:>=3 platforms, unsorted")
+        _shapes("ti:platforms", pl, f)
         if len(spec["variants"]) >= 2:
             f.append("ti:>=2 top-level")
         if len(spec["checksums"]) >= 2:
             f.append("ti:>=2 checksums")
+        if _u3(c[0] for c in spec["checksums"]):
+            f.append("ti:checksum table >=3 unsorted")
+        _shapes("ti:checksum paths", [c[0] for c in spec["checksums"]], f)
+        if _u3(p[0] for p in spec["images"]):
+            f.append("ti:image platform table >=3 unsorted")
+        if any(_u3(x[0] for x in p[1]) for p in spec["images"]):
+            f.append("ti:images of one platform >=3 unsorted")
+        for p in spec["images"]:
+            _shapes("ti:image names", [x[0] for x in p[1]], f)
     elif fmt == "discinfo":
         d = spec["disc_numbers"]
         if len(d) >= 2 and d != sorted(d):
             f.append("di:disc numbers not ascending")
+        if len(d) >= 3 and d != sorted(d) and len(set(d)) < len(d):
+            f.append("di:>=3 disc numbers, not ascending, one repeated")
     elif FMF is not None:
         f.extend(FMF.features(fmt, spec))
     return sorted(set(f))
@@ -321,7 +497,7 @@ class Workers(object):
 class C08(Prop):
     id = "C08"
     lean_module = "ProductMD.Properties.C08"
-    quick_budget = 700
+    quick_budget = 540
     thorough_budget = 2400
     rule = ("per case one content x k construction orders (seeded shuffles of every unordered container) x S hash seeds in separate "
             "interpreter processes x 1-3 dumps: all byte strings equal, equal to the Lean model's rendering of every order; JSON text = "
@@ -355,20 +531,31 @@ class C08(Prop):
             spec = FCI.gen(rng, tier)
             for v, _ in FCI.walk(spec):                   # valid contents: the writer refuses blank releases of layered products
                 pass
-            if i % 3 != 2:
+            # round-robin over the container classes (i % 8): 0-2 children of a top-level variant, 3-5 the further classes, 6-7 plain
+            if i % 8 <= 2:
                 spec = boost_composeinfo(spec, rng)
+            elif i % 8 <= 5:
+                spec = boost_composeinfo2(spec, rng, i % 8 - 3)
         elif fmt == "images":
             spec = FIM.gen(rng, tier, version=rng.choice(["1.2", "1.2", "1.1", "0.0", "2.0"]))
-            if i % 3 != 2:
+            if i % 8 <= 2:
                 spec = boost_images(spec, rng)
+            elif i % 8 <= 6:
+                spec = boost_images2(spec, rng, i % 8 - 3)
         elif fmt == "treeinfo":
             spec, mv = FTI.gen(rng, tier)
-            if i % 3 != 2:
+            if i % 8 <= 2:
                 spec = boost_treeinfo(spec, rng)
+            elif i % 8 <= 6:
+                spec = boost_treeinfo2(spec, rng, i % 8 - 3)
         elif fmt == "discinfo":
             spec = FDI.gen(rng, tier)
+            if i % 3 == 0:                              # >= 3 disc numbers, not ascending, one repeated (caller-ordered content)
+                spec["disc_numbers"] = rng.choice([[3, 1, 2, 1], [10, 9, 2 ** 40, 0, 10], [2, 2, 1], [5, 4, 3, 2, 1]])
         else:
             spec = FMF.gen(fmt, rng, tier)
+            if i % 6 != 5:
+                spec = FMF.boost(fmt, spec, rng, i)
         return spec, mv
 
     def cases(self, rng, tier, budget):
@@ -383,8 +570,11 @@ class C08(Prop):
                 spec, mv = self.gen_spec(fmt, rng, tier, i)
                 k = 1 if fmt == "discinfo" else rng.choice([2, 3, 3, 4])
                 orders = [0] + [rng.randrange(1, 10 ** 6) for _ in range(k)]
+                # construction styles: every second case rebuilds the containers of the rearranged objects through the other public
+                # idioms (in-place refill, remove + re-add, add + remove, empty buckets); every third case builds all objects first
+                styles = [0] + [(o if (i % 2 == 0 and fmt in ("composeinfo", "images", "treeinfo", "discinfo")) else 0) for o in orders[1:]]
                 yield {"op": "c08", "args": {"fmt": fmt, "spec": spec, "mv": mv, "orders": orders, "ndumps": rng.choice([1, 2, 3]),
-                                            "hashseeds": seeds}}
+                                            "hashseeds": seeds, "styles": styles, "interleave": i % 3 == 1}}
         for c in self.seq_cases(rng, tier, budget, seeds):
             yield c
 
@@ -395,7 +585,7 @@ class C08(Prop):
         discinfo: dumps -> (load the text into another object | read every attribute | get_variants / __getitem__ | dump_for_tree)
         -> dumps."""
         import itertools
-        n_ti = max(6, budget // 14)
+        n_ti = max(6, budget // 18)
         made = 0
         tries = 0
         while made < n_ti and tries < 40 * n_ti:
@@ -445,6 +635,31 @@ class C08(Prop):
                 steps = [{"dump": None}, {"export": [v, a, b1]}, {"dump": None}, {"export": [v, a, b2]}, {"export": [v, a, b1]}, {"dump": None}]
                 yield {"op": "c08_seq", "args": {"fmt": "extra_files", "spec": spec, "steps": steps, "hashseeds": seeds[:1]}}
                 made += 1
+        # dump -> modify -> dump on one object vs a fresh object of the modified content (scalars reassigned; add-based formats grow)
+        for fmt in self.formats():
+            for i in range(max(3, budget // 90)):
+                spec, mv = self.gen_spec(fmt, rng, tier, i)
+                new = copy.deepcopy(spec)
+                if fmt == "composeinfo":
+                    new["compose"]["respin"] = 77
+                    new["compose"]["id"] = new["compose"]["id"] + ".77"
+                    new["release"]["version"] = "9.9"
+                elif fmt == "treeinfo":
+                    new["release"]["version"] = "9.9"
+                    new["tree"]["build_timestamp"] = 424242
+                    new["tree"]["platforms"] = sorted(set(new["tree"]["platforms"]) | set(["zz-new", "AA-new"]), reverse=True)
+                elif fmt == "discinfo":
+                    new["description"] = "changed description"
+                    new["disc_numbers"] = [3, 1, 2]
+                elif fmt == "images":
+                    spec["adds"] = list(spec["adds"])
+                    new = boost_images2(copy.deepcopy(spec), rng, i % 4)
+                    new["compose"]["respin"] = 77
+                else:
+                    new = FMF.boost(fmt, copy.deepcopy(spec), rng, i)
+                    new["compose"]["respin"] = 77
+                steps = [{"dump": mv}, {"modify": new}, {"dump": mv}, {"touch": "attrs"}, {"dump": mv}]
+                yield {"op": "c08_seq", "args": {"fmt": fmt, "spec": spec, "steps": steps, "hashseeds": seeds[:1], "modified": True}}
         others = [f for f in self.formats() if f != "treeinfo"]
         per = max(2, budget // 70)
         for fmt in others:
@@ -476,12 +691,14 @@ class C08(Prop):
         fmt = a["fmt"]
         checklib.use_repo()
         specs = [permute(fmt, a["spec"], s) for s in a["orders"]]
-        req = {"fmt": fmt, "specs": specs, "ndumps": a.get("ndumps", 1), "mv": a.get("mv")}
+        req = {"fmt": fmt, "specs": specs, "ndumps": a.get("ndumps", 1), "mv": a.get("mv"), "styles": a.get("styles"),
+               "interleave": a.get("interleave")}
         try:
             ans = self.workers.ask(list(a.get("hashseeds") or QUICK_SEEDS), req)
         except (BrokenPipeError, OSError) as e:
             raise checklib.Infra("C08 worker: %s" % e)
         texts, table, states, errs = {}, [], [], set()
+        issues = []
         first = None
         order_texts = [None] * len(specs)
         base_content = None
@@ -490,6 +707,9 @@ class C08(Prop):
             for oi, r in enumerate(ans[hs]["runs"]):
                 if order_texts[oi] is None:
                     order_texts[oi] = r.get("text") if not r.get("err") else {"err": r["err"]}
+                for it in r.get("issues") or []:
+                    if it not in issues:
+                        issues.append(it)
                 if r.get("content") is not None:
                     if base_content is None:
                         base_content = r["content"]
@@ -509,20 +729,29 @@ class C08(Prop):
                         texts.setdefault(s, r["other"][str(di)])
                 states.append([hs, a["orders"][oi], r.get("before"), r.get("after")])
         return {"first": first, "texts": texts, "table": table, "states": states, "errs": sorted(errs), "order_texts": order_texts,
-                "other_content": skipped}
+                "other_content": skipped, "issues": issues}
 
     # ---- model side
+    @staticmethod
+    def _seq_keys(a):
+        """(phase, main_variant, spec of that phase) for every distinct dump call of a sequence; a `modify` step starts a new phase"""
+        out, seen, ph, sp = [], set(), 0, a["spec"]
+        for st in a["steps"]:
+            if "modify" in st:
+                ph += 1
+                sp = st["modify"]
+            if "dump" in st and (ph, st["dump"]) not in seen:
+                seen.add((ph, st["dump"]))
+                out.append((ph, st["dump"], sp))
+        return out
+
     def model_requests(self, case):
         a = case["args"]
         fmt = a["fmt"]
         if case["op"] == "c08_seq":
             if fmt != "treeinfo":
                 return []
-            mvs = []
-            for st in a["steps"]:
-                if "dump" in st and st["dump"] not in mvs:
-                    mvs.append(st["dump"])
-            return [{"op": "ti_dumps", "args": {"spec": a["spec"], "main_variant": mv}} for mv in mvs]
+            return [{"op": "ti_dumps", "args": {"spec": sp, "main_variant": mv}} for _, mv, sp in self._seq_keys(a)]
         reqs = []
         for s in a["orders"][:3]:
             spec = permute(fmt, a["spec"], s)
@@ -547,11 +776,8 @@ class C08(Prop):
     def model_result(self, case, outs):
         fmt = case["args"]["fmt"]
         if case["op"] == "c08_seq":
-            mvs = []
-            for st in case["args"]["steps"]:
-                if "dump" in st and st["dump"] not in mvs:
-                    mvs.append(st["dump"])
-            return dict((json.dumps(mv), (o["ok"]["text"] if "ok" in o else "ERR:" + str(o.get("err")))) for mv, o in zip(mvs, outs))
+            keys = self._seq_keys(case["args"])
+            return dict((json.dumps([ph, mv]), (o["ok"]["text"] if "ok" in o else "ERR:" + str(o.get("err")))) for (ph, mv, _), o in zip(keys, outs))
         res = []
         state = None
         if fmt == "composeinfo":
@@ -584,9 +810,12 @@ class C08(Prop):
     def compare(self, case, real_out, model_out):
         if case["op"] == "c08_seq":
             # the model's dump is a pure function of (content, main_variant): it must be what a FRESH real object writes
+            ph = 0
             for st in real_out["seq"]:
+                if st.get("modify"):
+                    ph += 1
                 if "fresh" in st and "dump" in st:
-                    m = model_out.get(json.dumps(st["dump"]))
+                    m = model_out.get(json.dumps([ph, st["dump"]]))
                     if m is not None and m != st["fresh"] and not (m.startswith("ERR:") and st["fresh"].startswith("ERR:")):
                         return {"real": _excerpt(st["fresh"], m), "model": _excerpt(m, st["fresh"])}
             return None
@@ -618,7 +847,7 @@ class C08(Prop):
                         "observed": {"step": i, "call": call, "history": a["steps"][:i],
                                      "this object": _excerpt(st["text"], st["fresh"]), "fresh object, same content, same call": _excerpt(st["fresh"], st["text"])},
                         "required": "a dump writes what a fresh object with the same content writes for the same call, whatever was dumped or read before"}
-            if a["fmt"] != "treeinfo" and "dump" in st:
+            if a["fmt"] != "treeinfo" and "dump" in st and not a.get("modified"):
                 if first is None:
                     first = st["text"]
                 elif st["text"] != first:
@@ -659,6 +888,10 @@ class C08(Prop):
             if after != exp:
                 return {"kind": "state", "observed": {"hashseed": hs, "order": order, "after": after},
                         "required": {"after": exp, "why": "a dump may only set header.version and a layered variant's release.is_layered"}}
+        if real_out.get("issues"):
+            # rebuilding the SAME content through another public idiom (remove + re-add) was refused by the container itself
+            return {"kind": "container-op-raised", "observed": real_out["issues"][0],
+                    "required": "the public container operations used to build the same content in another style do not raise"}
         return None
 
     def nontrivial(self, case, real_out):
@@ -673,6 +906,8 @@ class C08(Prop):
             k = "seq:" + fmt
             dist[k] = dist.get(k, 0) + 1
             dist["seq:dumps compared with a fresh object"] = dist.get("seq:dumps compared with a fresh object", 0) + sum(1 for st in real_out["seq"] if "fresh" in st)
+            if a.get("modified"):
+                dist["seq:dump -> modify/grow -> dump vs fresh object"] = dist.get("seq:dump -> modify/grow -> dump vs fresh object", 0) + 1
             if any("export" in st for st in a["steps"]):
                 dist["seq:extra_files dump_for_tree with a basepath that prefixes stored paths"] = dist.get("seq:extra_files dump_for_tree with a basepath that prefixes stored paths", 0) + 1
             if fmt == "treeinfo":
@@ -683,6 +918,10 @@ class C08(Prop):
         dist[fmt] = dist.get(fmt, 0) + 1
         dist["runs"] = dist.get("runs", 0) + len(real_out["table"])
         dist["hashseeds"] = max(dist.get("hashseeds", 0), len(a.get("hashseeds") or []))
+        if any(a.get("styles") or []):
+            dist["style:containers refilled in place / remove+re-add / add+remove / empty buckets"] = dist.get("style:containers refilled in place / remove+re-add / add+remove / empty buckets", 0) + 1
+        if a.get("interleave"):
+            dist["style:all objects of the case built before the first dump"] = dist.get("style:all objects of the case built before the first dump", 0) + 1
         if real_out.get("other_content"):
             dist[fmt + ":orders reaching another content (colliding adds, skipped)"] = dist.get(fmt + ":orders reaching another content (colliding adds, skipped)", 0) + real_out["other_content"]
         if real_out.get("errs"):
